@@ -70,9 +70,12 @@ static Verdict evaluate(const LifeCase &c, const c11_out &o) {
         if (c.hooks_mode == 0) PBT_REQUIRE(sp[kv.first] == 1, "failed tp_create ran the start hook of thread object " << std::hex << kv.first << std::dec << " but its stop hook " << sp[kv.first]
                                                                                                  << " times (thread-local user state set up by the start hook is never torn down)");
       }
-      // (a stop hook without a start hook -- the virtual thread's own setup failed -- is not asserted either way: the property
-      // speaks about what is left behind, and nothing is)
-      for (auto &kv : sp) if (!st.count(kv.first)) label("create_failed_stop_hook_without_start");
+      // hooks come in pairs: a thread object whose start hook never ran (its own set-up failed, or the creation failed before it was
+      // started) must not be handed to the stop hook, which tears down what the start hook built
+      for (auto &kv : sp) {
+        PBT_REQUIRE(kv.second == 1, "failed tp_create ran the stop hook " << kv.second << " times for one thread");
+        if (c.hooks_mode == 0) PBT_REQUIRE(st.count(kv.first), "failed tp_create ran the stop hook of thread object " << std::hex << kv.first << std::dec << " whose start hook never ran");
+      }
       if (!st.empty()) label("create_failed_after_start_hook");
     }
     label("create_failed_cleanly");
